@@ -175,11 +175,15 @@ def run_impl(stmts):
         cur.execute(f"create table {t} (a int, b int)")
     admin = fs.duck_conn.cursor()
     obs = []
-    for s in stmts:
+    for j, s in enumerate(stmts):
         try:
             cur.execute(r_stmt(s))
             rows = cur.fetchall()
             names = list(cur._arrow_table.schema.names)  # noqa: SLF001
+            if j % 2 and s[0] != "trunc":
+                # programs look at the description before they look at the count: the count must still be the statement's
+                if [x.name for x in cur.description] != names:
+                    raise AssertionError(f"description names {[x.name for x in cur.description]} != result columns {names}")
             if s[0] == "trunc":
                 rep = [[3], 1]
             else:
